@@ -10,21 +10,21 @@ def h_relations(I, job):
     nrel, mper, nn = job['nrel'], job['mper'], job['nodes']
     IDS = job['idset']
     def small(name):
-        v = I.named(name, 8); I.assume(z3.Or([I.term(v, 8) == x for x in IDS])); return I.concretize(v, name)
+        v = I.named(name, 8); I.assume(z3.Or([I.term(v, 8) == (x & 0xff) for x in IDS])); c = I.concretize(v, name); return c - 256 if c >= 128 else c        # ids are small signed numbers (negative ids occur in editor files)
     nm = I.new_obj(4 * nrel, 'nmem', 'heap'); rf = I.new_obj(8 * nrel * mper, 'refs', 'heap'); rels = []
     for r in range(nrel):
         cnt = I.named('nmem%d' % r, 8); I.assume(z3.And(z3.UGE(I.term(cnt, 8), 1), z3.ULE(I.term(cnt, 8), mper))); cnt = I.concretize(cnt, 'nmem')
         I.store(nm + 4 * r, i32, cnt); ms = []
         for k in range(mper):
             x = small('ref%d_%d' % (r, k)) if k < cnt else 0
-            I.store(rf + 8 * (r * mper + k), i64, x)
+            I.store(rf + 8 * (r * mper + k), i64, x & ((1 << 64) - 1))
             if k < cnt: ms.append(x)
         rels.append(ms)
     im = I.new_obj(8 * nn, 'ids', 'heap'); stream = []
     for k in range(nn):
         x = small('node%d' % k)
         if stream and x <= stream[-1]: from llsym import PathEnd; raise PathEnd()        # member objects arrive sorted by id, each id once (no history files)
-        I.store(im + 8 * k, i64, x); stream.append(x)
+        I.store(im + 8 * k, i64, x & ((1 << 64) - 1)); stream.append(x)
     log = I.new_obj(8 * 96, 'log', 'heap')
     n = I.concretize(I.call('@verif_relations', [nrel, nm, mper, rf, nn, im, log, 96]), 'n')
     got = [I.concretize(I.load(log + 8 * k, i64), 'w') for k in range(min(n, 96))]
@@ -86,8 +86,8 @@ def h_relations(I, job):
 def harnesses(tier):
     q = tier == 'quick'
     return [
-        Harness('relations_members_db', 'reldb', h_relations, jobs=[dict(nrel=2, mper=2, nodes=3, idset=(1, 2, 3), dups_ok=False)] + ([] if q else [dict(nrel=2, mper=3, nodes=4, idset=(1, 2, 3, 4), dups_ok=False)]),
+        Harness('relations_members_db', 'reldb', h_relations, jobs=[dict(nrel=2, mper=2, nodes=3, idset=(1, 2, 3), dups_ok=False), dict(nrel=2, mper=2, nodes=3, idset=(-2, -1, 3), dups_ok=False)] + ([] if q else [dict(nrel=2, mper=3, nodes=4, idset=(1, 2, 3, 4), dups_ok=False)]),
                 desc='RelationsDatabase + MembersDatabase<Node> + ItemStash driven like RelationsManager: 2 relations with 1-2 node references each (ids symbolic over a small set: shared, duplicate and missing members all occur), a sorted stream of 3 distinct nodes: each complete relation is reported exactly once at its last member with all members retrievable; members stay available while another relation needs them and are reported absent afterwards; incomplete relations stay in the database',
-                bounds='2 relations x <= 2 members, 3 stream nodes, ids in {1,2,3}', sanitize=True, wall=900,
+                bounds='2 relations x <= 2 members, 3 stream nodes, ids in {1,2,3} and in {-2,-1,3} (negative ids)', sanitize=True, wall=900,
                 testgen=lambda rnd: [dict(nmem0=2, nmem1=1, ref0_0=1, ref0_1=2, ref1_0=2, node0=1, node1=2, node2=3)]),
     ]
